@@ -11,6 +11,11 @@ type Tag struct {
 	Name              TagName
 	Title             string
 	Description       *string
+
+	// auto is true for the tag made from the path of an interaction which has no
+	// Tags directive. Such a tag isn't declared by the TAG directive, so the Tags
+	// directive cannot refer to it.
+	auto bool
 }
 
 var _ json.Marshaler = &Tags{}
@@ -31,6 +36,7 @@ func newPathTag(r InteractionID) *Tag {
 		Children:          &Tags{},
 		Title:             title,
 		Name:              tagName(title),
+		auto:              true,
 	}
 }
 
